@@ -4,6 +4,7 @@ import (
 	"context"
 	"fmt"
 	"math/bits"
+	"sort"
 	"strings"
 	"sync"
 	"sync/atomic"
@@ -128,6 +129,60 @@ func (w *c20World) open(mode string, vals [4]string) string {
 	return fmt.Sprintf("%s during=%s after=%s len=%s", result, during, after, lns)
 }
 
+type c20ReplayHeld struct {
+	id int64
+	h  *c20Held
+}
+
+var c20Replayed []c20ReplayHeld
+
+// c20Held: a well-formed stream (default mode) that is being served and kept open by the harness
+type c20Held struct {
+	cancel context.CancelFunc
+	done   chan error
+}
+
+// hold opens a well-formed default-mode stream for server shard id and keeps it open; the observation is the observer's
+// active list and counter length once the stream is being served
+func (w *c20World) hold(id int64) (*c20Held, string) {
+	md := mdPairs("1", "1", "2", fmt.Sprint(id))
+	ctx, cancel := context.WithCancel(metadata.NewIncomingContext(context.Background(), md))
+	ss := newSrvStream(ctx)
+	h := &c20Held{cancel: cancel, done: make(chan error, 1)}
+	for len(w.client.opened) > 0 {
+		<-w.client.opened
+	}
+	go func() { h.done <- w.servers["default"].StreamWorkflowReplicationMessages(ss) }()
+	select {
+	case <-w.client.opened:
+	case err := <-h.done:
+		h.done <- err
+		return h, "not-served"
+	case <-time.After(3 * time.Second):
+		return h, "wedged"
+	}
+	return h, w.activeAndLen()
+}
+
+func (w *c20World) release(h *c20Held) string {
+	h.cancel()
+	select {
+	case <-h.done:
+	case <-time.After(5 * time.Second):
+		return "wedged"
+	}
+	return w.activeAndLen()
+}
+
+func (w *c20World) activeAndLen() string {
+	act, ok := withTimeout(2*time.Second, w.obs.PrintActiveStreams)
+	ln, ok2 := withTimeout(2*time.Second, w.obs.VerifLen)
+	if !ok || !ok2 {
+		return "blocked"
+	}
+	return fmt.Sprintf("%s len=%d", act, ln)
+}
+
 func TestC20(t *testing.T) {
 	e := NewEnv(t, "observer")
 	defer e.Close(t)
@@ -185,6 +240,26 @@ func TestC20(t *testing.T) {
 						w.stop()
 					}
 					w = newWorld()
+				case "hold", "release":
+					// overlapping-stream histories replay through the same ops
+					var id int64
+					fmt.Sscan(f[1], &id)
+					if w != nil {
+						if f[0] == "hold" {
+							h, obs := w.hold(id)
+							c20Replayed = append(c20Replayed, c20ReplayHeld{id, h})
+							e.Emit(op, obs)
+						} else {
+							for i, l := range c20Replayed {
+								if l.id == id {
+									e.Emit(op, w.release(l.h))
+									c20Replayed = append(c20Replayed[:i], c20Replayed[i+1:]...)
+									break
+								}
+							}
+						}
+						e.Evals++
+					}
 				case "open":
 					dec := func(s string) string {
 						if s == "%e" {
@@ -247,6 +322,74 @@ func TestC20(t *testing.T) {
 		}
 	}
 	w.stop()
+	// overlapping streams, deterministic: streams are opened and KEPT open, others open (growing the counters, or not) and
+	// close around them in every order. After every step the observer's active list is exactly the set of streams being
+	// served (monitor, independent of the model), and equals the model's counters (ops `hold` / `release`).
+	if !stopAll {
+		ids := []int64{1, 2, 5, 1023, 1024, 1025, 2048, 4096, 65536, 900000, 1048575, 1048576}
+		nOv := 60
+		if e.Thorough() {
+			nOv = 1500
+		}
+		for i := 0; i < nOv && !stopAll; i++ {
+			w := newWorld()
+			var ops []string
+			type live struct {
+				id int64
+				h  *c20Held
+			}
+			var held []live
+			steps := 4 + rng.IntN(10)
+			for st := 0; st < steps || len(held) > 0; st++ {
+				var op, obs string
+				if st < steps && (len(held) == 0 || (len(held) < 5 && rng.IntN(5) < 3)) {
+					id := ids[rng.IntN(len(ids))]
+					if rng.IntN(4) == 0 {
+						id = int64(1 + rng.IntN(3000))
+					}
+					op = fmt.Sprintf("hold %d", id)
+					e.Emit("# next: "+op, "#")
+					e.FlushNow()
+					h, o := w.hold(id)
+					held, obs = append(held, live{id, h}), o
+				} else {
+					k := rng.IntN(len(held))
+					op = fmt.Sprintf("release %d", held[k].id)
+					obs = w.release(held[k].h)
+					held = append(held[:k], held[k+1:]...)
+				}
+				ops = append(ops, op)
+				e.Emit(op, obs)
+				e.Evals++
+				e.Count("overlap_" + strings.Fields(op)[0])
+				// monitor: the active list is the sorted set of held ids
+				want := map[int64]bool{}
+				for _, l := range held {
+					want[l.id] = true
+				}
+				var wl []int64
+				for id := range want {
+					wl = append(wl, id)
+				}
+				sort.Slice(wl, func(a, b int) bool { return wl[a] < wl[b] })
+				ws := "["
+				for _, id := range wl {
+					ws += fmt.Sprintf("%d,", id)
+				}
+				ws += "]"
+				if got := strings.SplitN(obs, " len=", 2)[0]; got != ws {
+					e.Violation(map[string]any{"ops": append([]string{"new"}, ops...), "what": fmt.Sprintf("overlapping streams: after %q the observer reports active streams %s, the streams being served are %s (one stream's open or close changed another stream's bookkeeping)", op, got, ws)})
+					stopAll = true
+					break
+				}
+			}
+			for _, l := range held {
+				w.release(l.h)
+			}
+			w.stop()
+			e.Count("history_overlapping")
+		}
+	}
 	// concurrency: "bookkeeping for one stream never blocks or corrupts bookkeeping for others". Well-formed streams
 	// open and close on small shard ids while other streams open with ever larger shard ids (each one makes the
 	// counters grow); when everything has ended no stream may be counted as active. (Linearizable counters: the
